@@ -16,6 +16,7 @@ pub fn def() -> PropDef {
         nontrivial,
         functional: false,
         rule: "grammar-generated programs, well-typed and ill-typed (30% of sub-expressions ignore the requested type), depth <= 8, over every operator, macro, built-in and literal form, against contexts with i64/u64 extremes, NaN/inf/-0.0, empty and non-ASCII strings and bytes, nested lists and maps, chrono-limit durations and timestamps, function values and host functions of arity 0-9; plus all ordered pairs of a ~70-value boundary set under each operator implementation called directly; non-trivial = contains an operator, call or macro (programs) / always (direct pairs); distinct = distinct case text",
+        post: super::no_post,
         exhaustive_note: "boundary pairs under the direct operators are enumerated completely; programs are a random sample",
     }
 }
